@@ -108,12 +108,14 @@ V_ENSURES(__CPROVER_pointer_equals(V_RET, g_mctx))
 ;
 #endif
 
+#ifndef V_OWN_M_MOD_IS    /* (unit ps.tell_subscribers counts the eligibility tests instead) */
 V_CONTRACT
 bool m_mod_is(const m_mod_t *mod, m_mod_states st)
 V_REQUIRES(mod == NULL || V_R_OK(mod, sizeof(m_mod_t)))
 V_ASSIGNS()
 V_ENSURES(V_RET == (mod != NULL && (mod->state & st) != 0))
 ;
+#endif
 
 /* ---- abstract queue iterator -------------------------------------------------------------------------------------
  * A function under proof has at most one live iterator, so the abstract iterator is the ghost singleton *g_qit (a heap object made by the harness, since the code under proof may free it) (position
